@@ -34,6 +34,25 @@ def _bits(a):
     return np.ascontiguousarray(np.asarray(a, dtype=float)).tobytes()
 
 
+def safe(fn):
+    """monitor callbacks never raise into pybads (except the deliberate aborts):
+    a crash of monitor code is a FRAMEWORK error, recorded and reported as such"""
+    import functools
+
+    @functools.wraps(fn)
+    def w(self, *a, **k):
+        try:
+            return fn(self, *a, **k)
+        except (NonProgress, InjectedFault):
+            raise
+        except Exception as e:  # noqa
+            if len(self.monitor_errors) < 3:
+                self.monitor_errors.append(fn.__name__ + ": " + "".join(traceback.format_exception(type(e), e, e.__traceback__))[-1200:])
+            return None
+
+    return w
+
+
 class Patch:
     def __init__(self):
         self.saved = []
@@ -94,6 +113,7 @@ class RunMonitor:
         self.consec_noeval = 0
         self.max_consec_noeval = 0
         self.flags = set()
+        self.monitor_errors = []
         self.rng = np.random.default_rng(int(spec["options"].get("random_seed", 0)) + 7)
 
     # ------------------------------------------------------------------ utils
@@ -245,6 +265,7 @@ class RunMonitor:
 
         patch.set(FL, "__call__", call)
 
+    @safe
     def _after_logger_call(self, fl, u, record, out, ev):
         fval, fsd, idx = out
         if ev is not None:
@@ -262,6 +283,9 @@ class RunMonitor:
             else:
                 self.v("C17/no-repeat-eval-unexplained", u=u, site=(carry or {}).get("site"), times=self.evaluated[b],
                        phase=ev["phase"] if ev else None)
+        if record and self.evaluated[b] > 1 and self.fl.he_noise_flag:
+            self.flags.add("duplicate-merge")
+            self.c("duplicate_merges")
         # value history per row (C15)
         if idx is not None and record:
             y = float(fl.Y[idx, 0])
@@ -346,6 +370,7 @@ class RunMonitor:
         self.c("C03.filter_injections")
         return out[: int(keep)]
 
+    @safe
     def _after_filter(self, ns, Uin, lb, ub, tol_mesh, fl, proj, cons, out, scripted):
         site = self._filter_site(ns)
         self.filters += 1
@@ -541,6 +566,7 @@ class RunMonitor:
                 self.v("C13/search-mesh-exceeds-poll-mesh", sms=st["sms"], mesh=st["mesh"], where="poll-entry")
         return st
 
+    @safe
     def _poll_exit(self, b, st):
         self.cur_poll = None
         o = b.options
@@ -661,6 +687,7 @@ class RunMonitor:
                         self.c("C14.steps_with_2plus_evals")
 
     # ---- loop probe
+    @safe
     def _loop_end(self, b, info):
         o = b.options
         k = int(b.mesh_size_integer)
@@ -800,6 +827,7 @@ class RunMonitor:
 
         patch.set(sh.ESSearchHedge, "__call__", hedge_call)
 
+    @safe
     def _es_exit(self, st, out):
         if "C18" not in self.want:
             return
@@ -822,7 +850,13 @@ class RunMonitor:
         if st["gen_in"] and st["gen_out"] and sum(st["gen_out"]) < 0.1 * sum(st["gen_in"]):
             self.flags.add("es-population-shrunk")
             self.c("C18.es_population_shrunk")
+        if np.asarray(us).size == 0 or np.asarray(z).size == 0:
+            self.c("C18.es_returned_empty")
+            if U.shape[0] != 0:
+                self.v("C18/es-returned-empty-although-candidates-survived", ncand=int(U.shape[0]), cls=st["cls"])
+            return
         if U.shape[0] == 0:
+            self.v("C18/es-returned-point-without-candidates", returned=us, cls=st["cls"])
             return
         zret = float(np.asarray(z).ravel()[0])
         zmin = float(np.nanmin(Z)) if np.any(~np.isnan(Z)) else float("nan")
@@ -999,6 +1033,7 @@ class RunMonitor:
             d.setdefault(fl.X[i].tobytes(), []).append(i)
         return d
 
+    @safe
     def _check_training_set(self, where, X, y, s2, variance=True, accept_reported_sd=None):
         fl = self.fl
         X = np.asarray(X, float)
@@ -1043,6 +1078,7 @@ class RunMonitor:
             if s2a is not None and he:
                 self.c("C15.noise_rows_checked")
 
+    @safe
     def _after_neighbors(self, fl, u, gp, options, optim_state, out):
         U, Y, S = out
         self.c("C15.neighbor_calls")
@@ -1076,8 +1112,7 @@ class RunMonitor:
         self._wrap_logger(patch)
         self._wrap_filter(patch)
         self._wrap_bads(patch)
-        if self.want & {"C18", "C15"}:
-            self._wrap_search(patch)
+        self._wrap_search(patch)
         if self.want & {"C15"} or self.gp_fault or "C16" in self.want or "C09" in self.want:
             self._wrap_gp(patch)
         return patch
@@ -1149,17 +1184,16 @@ class RunMonitor:
     def _exc_info(self, e):
         tb = traceback.extract_tb(e.__traceback__)
         inner = None
-        from_target = False
-        for fr in tb:
+        inner_i = -1
+        for i, fr in enumerate(tb):
             fn = fr.filename
             if "/pybads/" in fn and "/verif/" not in fn:
                 inner = (os.path.basename(fn), fr.name, fr.lineno)
-        for fr in tb:
-            if fr.name in ("_target", "_deliver_fault", "_cons") and fr.filename.endswith("runmon.py"):
-                # did the exception originate at/under the boundary callable?
-                from_target = True
+                inner_i = i
+        # raised at/under the user's callables (our boundary code runs *below* the
+        # innermost pybads frame)?
+        origin_in_boundary = any(("/vlib/" in fr.filename) for fr in tb[inner_i + 1:]) if inner_i >= 0 else False
         last = tb[-1] if tb else None
-        origin_in_boundary = bool(last and last.filename.endswith(("runmon.py", "gen.py")))
         return {"type": type(e).__name__, "msg": str(e)[:300], "inner": inner, "origin_in_boundary": origin_in_boundary,
                 "last": (os.path.basename(last.filename), last.name, last.lineno) if last else None}
 
@@ -1174,6 +1208,10 @@ class RunMonitor:
         rec["gp_fits"] = self.gp_fits[:60]
         rec["phases"] = [e.get("phase") for e in self.calls][:400]
         rec["max_consec_noeval"] = self.max_consec_noeval
+        if b is not None and b.optim_state.get("second_fit"):
+            self.flags.add("second-gp-fit")
+        if any(f["kind"] == "local" for f in self.gp_fits):
+            self.flags.add("local-refit")
         if b is not None and self.result is not None:
             try:
                 self._judge_result(rec)
@@ -1186,6 +1224,8 @@ class RunMonitor:
                 rec["oracle_error"] = "".join(traceback.format_exception(type(e), e, e.__traceback__))[-1500:]
         if self.fault is not None:
             rec["fault"] = {k: v for k, v in self.fault.items() if k not in ("exc_obj",)}
+        if self.monitor_errors and not rec.get("oracle_error"):
+            rec["oracle_error"] = self.monitor_errors[0]
         rec["viol"] = self.viol
         rec["viol_count"] = self.viol_count
         rec["cnt"] = self.cnt
@@ -1300,7 +1340,7 @@ class RunMonitor:
                         continue
                     self.c("C13.history_records")
                     e = math.log2(ms[i])
-                    if e != round(e) or ms[i] > 1:
+                    if e != round(e) or ms[i] > 2.0 ** int(o["max_poll_grid_number"]):
                         self.v("C13/mesh-not-power-of-two", where="history", i=i, mesh=ms[i])
             if r["mesh_size"] != 2.0 ** int(b.mesh_size_integer):
                 self.v("C13/mesh-not-power-of-two", where="result", mesh=r["mesh_size"], k=int(b.mesh_size_integer))
